@@ -18,22 +18,19 @@ type comparison =
 | Lt
 | Gt
 
-val compOpp : comparison -> comparison
-
 val add : nat -> nat -> nat
 
-val sub : nat -> nat -> nat
+val rev : 'a1 list -> 'a1 list
 
-val eqb : bool -> bool -> bool
+val concat : 'a1 list list -> 'a1 list
 
-module Nat :
- sig
-  val eqb : nat -> nat -> bool
+val map : ('a1 -> 'a2) -> 'a1 list -> 'a2 list
 
-  val leb : nat -> nat -> bool
+val firstn : nat -> 'a1 list -> 'a1 list
 
-  val ltb : nat -> nat -> bool
- end
+val skipn : nat -> 'a1 list -> 'a1 list
+
+val repeat : 'a1 -> nat -> 'a1 list
 
 type positive =
 | XI of positive
@@ -43,11 +40,6 @@ type positive =
 type n =
 | N0
 | Npos of positive
-
-type z =
-| Z0
-| Zpos of positive
-| Zneg of positive
 
 module Pos :
  sig
@@ -82,10 +74,6 @@ module Coq_Pos :
 
   val sub_mask_carry : positive -> positive -> mask
 
-  val mul : positive -> positive -> positive
-
-  val size : positive -> positive
-
   val compare_cont : comparison -> positive -> positive -> comparison
 
   val compare : positive -> positive -> comparison
@@ -95,6 +83,8 @@ module Coq_Pos :
   val iter_op : ('a1 -> 'a1 -> 'a1) -> positive -> 'a1 -> 'a1
 
   val to_nat : positive -> nat
+
+  val of_succ_nat : nat -> positive
  end
 
 module N :
@@ -107,8 +97,6 @@ module N :
 
   val sub : n -> n -> n
 
-  val mul : n -> n -> n
-
   val compare : n -> n -> comparison
 
   val eqb : n -> n -> bool
@@ -117,259 +105,153 @@ module N :
 
   val ltb : n -> n -> bool
 
-  val log2 : n -> n
-
   val pos_div_eucl : positive -> n -> n * n
 
   val div_eucl : n -> n -> n * n
 
-  val div : n -> n -> n
-
   val modulo : n -> n -> n
 
   val to_nat : n -> nat
+
+  val of_nat : nat -> n
  end
-
-val rev : 'a1 list -> 'a1 list
-
-val concat : 'a1 list list -> 'a1 list
-
-val map : ('a1 -> 'a2) -> 'a1 list -> 'a2 list
-
-val flat_map : ('a1 -> 'a2 list) -> 'a1 list -> 'a2 list
-
-val forallb : ('a1 -> bool) -> 'a1 list -> bool
-
-val firstn : nat -> 'a1 list -> 'a1 list
-
-val skipn : nat -> 'a1 list -> 'a1 list
-
-val repeat : 'a1 -> nat -> 'a1 list
-
-module Z :
- sig
-  val double : z -> z
-
-  val succ_double : z -> z
-
-  val pred_double : z -> z
-
-  val pos_sub : positive -> positive -> z
-
-  val add : z -> z -> z
-
-  val opp : z -> z
-
-  val mul : z -> z -> z
-
-  val compare : z -> z -> comparison
-
-  val leb : z -> z -> bool
-
-  val eqb : z -> z -> bool
-
-  val of_N : n -> z
- end
-
-type ascii =
-| Ascii of bool * bool * bool * bool * bool * bool * bool * bool
-
-val eqb0 : ascii -> ascii -> bool
-
-type string =
-| EmptyString
-| String of ascii * string
-
-val eqb1 : string -> string -> bool
 
 type bytes = n list
 
-val sp : n
+val nine : n
 
-val zero : n
+val blen : bytes -> n
 
-val bytes_eqb : bytes -> bytes -> bool
+type werr =
+| EInj
+| EShort
+| EFuel
 
-val rune_error : n
+type skind =
+| Hard
+| Short
+| ShortNil
+| FullErr
 
-val cont : n -> bool
+type fault = { f_k : n; f_kind : skind; f_transient : bool }
 
-val seq_size : n -> nat
+type sink = { s_fault : fault option; s_got : bytes; s_calls : n;
+              s_tripped : bool }
 
-val second_ok : n -> n -> bool
+val new_sink : fault option -> sink
 
-val chunks : bytes -> (n * bytes) list
+val sink_write : sink -> bytes -> (sink * n) * werr option
 
-val runes : bytes -> n list
+val cap : n
 
-val rune_count : bytes -> nat
+type bw = { b_pend : bytes list; b_n : n; b_err : werr option; b_sink : sink }
 
-val encode_rune : n -> bytes
+val new_bw : sink -> bw
 
-val encode : n list -> bytes
+val buf_bytes : bw -> bytes
 
-type seg =
-| SLit of bytes
-| SAlpha of string * nat
-| SNum of string * nat
-| SStr of string * nat
-| SRaw of string
-| SItoa of string
-| SCustom of string * string
-| SUnknown of string
+val avail : bw -> n
 
-type cut = { c_lo : nat; c_hi : nat; c_field : string; c_conv : string list;
-             c_const : bytes option }
+val push : bw -> bytes -> bw
 
-val mkcut : nat -> nat -> string -> string list -> cut
+val set_err : bw -> werr -> bw
 
-val mkconst : string -> bytes -> cut
+val bw_flush : bw -> bw * werr option
 
-type indexing =
-| IRune
-| IByte
+val ws_loop : nat -> bw -> bytes -> bw * bytes
 
-type layout = { l_name : string; l_ix : indexing; l_segs : seg list;
-                l_cuts : cut list }
+val bw_write : bw -> bytes -> bw * werr option
 
-type value =
-| VS of bytes
-| VI of z
+type handler =
+| Propagate
+| Ignore
+| ReturnNil
+| Absent
+| Unknown
 
-type recval = (string * value) list
+type wpolicy = { p_wl_line : handler; p_wl_le : handler;
+                 p_wl_flush : handler; p_thresh : n; p_api_flush : handler;
+                 p_hdr : handler; p_body : handler; p_ctl : handler;
+                 p_pad_line : handler; p_pad_le : handler; p_final : 
+                 handler }
 
-val lookup : recval -> string -> value option
+type act =
+| Cont
+| Ret of werr option
 
-val gets : recval -> string -> bytes
+val on_err : handler -> werr option -> act
 
-val geti : recval -> string -> z
+val api_flush : wpolicy -> bw -> bw * werr option
 
-val spaces : nat -> bytes
+type rtag =
+| THdr
+| TBody
+| TCtl
 
-val zeros : nat -> bytes
+val tag_handler : wpolicy -> rtag -> handler
 
-val is_space : n -> bool
+val nonempty : bytes -> bool
 
-val drop_space : (n * bytes) list -> (n * bytes) list
+val write_line :
+  wpolicy -> bytes -> (bw * n) -> bytes -> (bw * n) * werr option
 
-val trim : bytes -> bytes
+val write_recs :
+  wpolicy -> bytes -> (bw * n) -> (rtag * bytes) list -> (bw * n) * act
 
-val rune_prefix : nat -> bytes -> bytes
+val nines : bytes
 
-val alphaField : bytes -> nat -> bytes
+val pad_count : n -> nat
 
-val stringField : bytes -> nat -> bytes
+val pad_loop : wpolicy -> bytes -> nat -> bw -> bw * act
 
-val digits_fuel : nat -> n -> bytes -> bytes
+val final_flush : wpolicy -> bw -> bw * werr option
 
-val digits : n -> bytes
+val write_file :
+  wpolicy -> bytes -> (rtag * bytes) list -> bw -> bw * werr option
 
-val itoa : z -> bytes
+type wresult = { wr_write : werr option; wr_flush : werr option;
+                 wr_sink : sink }
 
-val numericField : z -> nat -> bytes
+val writer_run :
+  wpolicy -> bytes -> (rtag * bytes) list -> fault option -> wresult
 
-val is_digit : n -> bool
+val rec_bytes : bytes -> (rtag * bytes) list -> bytes
 
-val digits_val : bytes -> z -> z
+val rec_count : (rtag * bytes) list -> n
 
-val max_int64 : z
+val full_output : bytes -> (rtag * bytes) list -> bytes
 
-val min_int64 : z
+type rerr =
+| RInj
+| RUnexpectedEOF
 
-val atoi : bytes -> z
+type term =
+| TEOF
+| TErr of rerr
 
-val atoi_opt : bytes -> z option
+type source = { src_chunks : bytes list; src_term : term }
 
-val parseNumField : bytes -> z
+val read_full : n -> bytes list -> bytes -> (bytes * bytes list) * bool
 
-val aUTOENROLL : bytes
+val preview_size : n
 
-val eNR : bytes
+type rpolicy = { r_ctor : handler; r_scan : handler }
 
-val render_custom : string -> recval -> bytes option
+type rresult =
+| RCtorErr
+| RScanErr of rerr
+| RParsed of bytes
 
-val render_seg : recval -> seg -> bytes
+val reader_run : rpolicy -> source -> rresult
 
-val render : layout -> recval -> bytes
+val chop : nat -> nat -> bytes -> bytes list
 
-val units : indexing -> bytes -> bytes list
+val chunked : nat -> bytes -> bytes list
 
-val sub0 : bytes list -> nat -> nat -> bytes
+val failing_source : bytes -> nat -> nat -> rerr -> source
 
-val two : n -> n -> n
+val healthy_source : bytes -> nat -> source
 
-val valid_date : bytes -> bool
+val current_wpolicy : wpolicy
 
-val valid_time : bytes -> bool
-
-val validateSettlementDate : bytes -> bytes
-
-val ten_zeros : bytes
-
-val trimRoutingNumberLeadingZero : bytes -> bytes
-
-val conv_str : string -> bytes -> bytes option
-
-val conv_chain : string list -> bytes -> bytes option
-
-val conv_value : string list -> bytes -> value option
-
-val parse_cut : bytes list -> cut -> (string * value) list
-
-val parse : layout -> bytes -> recval
-
-val overlay : recval -> recval -> recval
-
-val l_ADVBatchControl : layout
-
-val l_ADVEntryDetail : layout
-
-val l_ADVFileControl : layout
-
-val l_Addenda02 : layout
-
-val l_Addenda05 : layout
-
-val l_Addenda10 : layout
-
-val l_Addenda11 : layout
-
-val l_Addenda12 : layout
-
-val l_Addenda13 : layout
-
-val l_Addenda14 : layout
-
-val l_Addenda15 : layout
-
-val l_Addenda16 : layout
-
-val l_Addenda17 : layout
-
-val l_Addenda18 : layout
-
-val l_Addenda98 : layout
-
-val l_Addenda98Refused : layout
-
-val l_Addenda99 : layout
-
-val l_Addenda99Contested : layout
-
-val l_Addenda99Dishonored : layout
-
-val l_BatchControl : layout
-
-val l_BatchHeader : layout
-
-val l_EntryDetail : layout
-
-val l_FileControl : layout
-
-val l_FileHeader : layout
-
-val l_IATBatchHeader : layout
-
-val l_IATEntryDetail : layout
-
-val all_layouts : layout list
+val current_rpolicy : rpolicy
